@@ -61,6 +61,13 @@ def cases(tier, seed):
                 seen2.add(k2)
         out = pick
     out.sort(key=lambda c: (c["backend"], c["d"]))
+    # more than two dimensions: no quadrature, but evaluation must still be a function of the point and agree with the
+    # density returned with the draws (also for the continuous / flow-matching proposal)
+    hd = [("zuko", True, 6, "float32"), ("zuko", False, 6, "float64"), ("flowjax", False, 5, "float64")]
+    if tier == "thorough":
+        hd += [("zuko", True, 5, "float64"), ("zuko", True, 8, "float32"), ("zuko", False, 12, "float32"), ("flowjax", False, 8, "float32"), ("zuko", True, 3, "float32")]
+    for i, (backend, fm, d, dt) in enumerate(hd):
+        out.append({"kind": "highdim", "backend": backend, "fm": fm, "d": d, "dtype": dt, "bt": ["logit", "probit"][i % 2], "affine": True, "data": "centred", "seed": [seed, 33, i]})
     for i, c in enumerate(out):
         if i % 4 == 1:
             c["bounds"] = "unit"
@@ -262,10 +269,81 @@ def check_flow(flow, aspire, case, lo, hi, data, stage, where, viol, counters):
     return integral
 
 
+def run_highdim(case):
+    from collections import Counter
+
+    from aspire import Aspire
+    from aspire.flows import get_flow_wrapper
+    from aspire.samples import Samples
+
+    counters = Counter({k: 0 for k in REQUIRED_COUNTERS})
+    viol = []
+    g = np.random.default_rng(case["seed"])
+    d, backend, dt = case["d"], case["backend"], case["dtype"]
+    F, fxp = get_flow_wrapper(backend, flow_matching=case["fm"])
+    lo = g.uniform(-4, 0, d)
+    hi = lo + g.uniform(2, 7, d)
+    params = [f"{'qrstuvwxyz'[j % 10]}{j}" for j in range(d)][::-1]
+    pb = {p: [float(lo[j]), float(hi[j])] for j, p in enumerate(params)}
+    data = make_data(g, "centred", d, lo, hi)
+    where = f"{backend} flow_matching={case['fm']} d={d} {dt} bounded={case['bt']}"
+    if backend == "zuko":
+        fkw = dict(seed=int(g.integers(1000))) if case["fm"] else dict(hidden_features=[8, 8], transforms=2, seed=int(g.integers(1000)))
+        fit_kw = dict(n_epochs=3, batch_size=100)
+    else:
+        import jax
+
+        fkw = dict(flow_layers=2, nn_width=8, key=jax.random.key(int(g.integers(1000))))
+        fit_kw = dict(max_epochs=2, batch_size=100, show_progress=False)
+    t = Target([Coord("box", lo[j], hi[j], 0.0, 1.0) for j in range(d)])
+    t.parameters = params
+    probe = Probe(t)
+    a = Aspire(log_likelihood=probe.log_likelihood, log_prior=probe.log_prior, dims=d, parameters=params, prior_bounds=pb, bounded_to_unbounded=True,
+               bounded_transform=case["bt"], flow_backend=backend, flow_matching=case["fm"], xp=fxp, dtype=dt, **fkw)
+    a.fit(Samples(fxp.asarray(data), xp=fxp, parameters=params), **fit_kw)
+    counters["configurations"] += 1
+    f32 = dt == "float32"
+    # a continuous flow integrates an ODE: its two directions agree to the solver tolerance only
+    rt = (5e-3 if case["fm"] else (2e-3 if f32 else 1e-8))
+    for src, draw in (("flow", lambda: a.flow.sample_and_log_prob(48)), ("sample_flow", lambda: a.sample_flow(48))):
+        out = draw()
+        if src == "flow":
+            xd, lq = out
+        else:
+            xd, lq = out.x, out.log_q
+        xn = np.asarray(to_np(xd), dtype=float)
+        lqn = np.asarray(to_np(lq), dtype=float)
+        e1 = np.asarray(to_np(a.flow.log_prob(xd)), dtype=float)
+        e2 = np.asarray(to_np(a.flow.log_prob(xd)), dtype=float)
+        counters["draws_checked"] += len(xn)
+        counters["log_prob_evaluations"] += 2 * len(xn)
+        counters["highdim_draws_checked"] += len(xn)
+        if not np.array_equal(e1, e2, equal_nan=True):
+            viol.append({"mech": "C03/log_prob-is-not-a-function-of-the-point", "detail": f"{where} [{src}]: two evaluations at the same points differ by up to {np.nanmax(np.abs(e1 - e2)):.3g}"})
+        slack = 4 * (1.2e-7 if f32 else 2.3e-16) * np.maximum(np.abs(lo), np.abs(hi))
+        if (xn < lo - slack).any() or (xn > hi + slack).any():
+            viol.append({"mech": "C03/draw-outside-declared-bounds", "detail": f"{where} [{src}]: min {xn.min(axis=0)}, max {xn.max(axis=0)}"})
+        u = (xn - lo) / (hi - lo)
+        ok = np.all((u > 1e-3) & (u < 1 - 1e-3), axis=1)
+        bad = ok & ~(np.abs(lqn - e1) <= rt * (1 + np.abs(e1)))
+        if bad.any():
+            i = int(np.argmax(np.where(bad, np.abs(lqn - e1), 0)))
+            viol.append({"mech": "C03/log_q-of-draw-differs-from-log_prob", "detail": f"{where} [{src}]: returned {lqn[i]!r}, log_prob gives {e1[i]!r}"})
+    counters["stages_checked"] += 1
+    counters["integrals_evaluated"] += 0
+    seen = {}
+    for v in viol:
+        seen.setdefault(v["mech"], dict(v, count=0))["count"] += 1
+    return {"viol": list(seen.values()), "counters": dict(counters), "nontrivial": [where], "sample": {"where": where}}
+
+
 def run_case(case):
     from collections import Counter
 
     import h5py
+
+    if case.get("kind") == "highdim":
+        return run_highdim(case)
 
     counters = Counter({k: 0 for k in REQUIRED_COUNTERS})
     viol = []
